@@ -73,6 +73,17 @@ def gen_cases(ctx, scale=1.0):
                     c['refuse'] = [t]
                     c['fault'] = 'refuse-' + ('vital' if t in ('hasher1', 'janitor') else t if t == 'reader' else 'other-hasher')
                     cases.append(c)
+    # verify(): a piece that carries several exceptions (a missing file whose piece also holds small bad
+    # by-catch files); the callback asks to stop for the first of them only
+    for threads in (1, 2):
+        for extra in (6, 40):
+            c = base(threads, 3, 'verify', L=4, nfiles=1)
+            c['sizes'] = [2, 1, 1, 4 * extra]
+            c['paths'] = layouts.paths_for(4, rng, nested=False)
+            c['disk'] = ['missing', 'missing', 2, 'ok']
+            c['cb'] = {'table': {'1': 'cancel-first'}}
+            c['fault'] = 'cb-cancel-first-of-several-errors'
+            cases.append(c)
     ctx.notes['enumerated'] = ('threads 1..2 x pieces {1, cap, cap+2}: callback cancel/raise at every pieces_done, '
                                'OSError at (every / every other) read call, refusal of every thread')
     # 2. random: large piece counts (bounded work after the fault), OOM bursts, combinations
@@ -133,7 +144,7 @@ def judge(ctx, c, case, obs, rep, c02reply, prop):
             tags.append('pieces')
     # --- what the caller gets
     raise_k = [int(k) for k, v in table.items() if v in ('raise', 'raise-base')]
-    cancel_k = [int(k) for k, v in table.items() if v == 'cancel']
+    cancel_k = [int(k) for k, v in table.items() if v in ('cancel', 'cancel-first')]
     cb_raised = any(cl['done'] in raise_k for cl in obs['calls'])
     cb_cancelled = any(cl['done'] in cancel_k for cl in obs['calls'])
     fault_gave_up = obs['fault_fired'] and (c.get('read_fault_kind') == 'oserror' or
